@@ -8,6 +8,7 @@ from typing import List
 from typing import Optional
 
 from ..absctx import Unsupported
+from ..absint import AbsRaise
 from ..absint import Interp
 from ..absval import *  # noqa: F403
 from ..harness import describe
@@ -61,16 +62,27 @@ def check_truthiness(model: Model, report: Report, rule: str) -> None:
     fn = ci.find_method("evaluate")
     if fn is None:
         raise AnalysisError("anchor vanished: FilterExpression.evaluate")
-    for cell in operand_cells():
+    # the wrapped expression may be of any class: whatever it is, the test is the truthiness of ITS evaluate(context)
+    # on the SAME context (an embedded query evaluated some other way loses the root of the query argument)
+    cells = [(c, "Expression") for c in operand_cells()]
+    cells += [(c, q) for c in operand_cells() if c.startswith("nl") for q in ("RelativeFilterQuery", "RootFilterQuery")]
+    for cell, inner_cls in cells:
 
-        def body(it: Interp, cell=cell) -> Any:
+        def body(it: Interp, cell=cell, inner_cls=inner_cls) -> Any:
             inst = it.harness_inst(ci, "filter")
             inst.attrs["token"] = it.new_opaque("token")
-            inst.attrs["expression"] = expr_stub(it, model, make_operand(it, model, cell, "result"), "inner")
             ctxo = it.new_opaque("context", model.cls(FE + "FilterContext"))
+            res = make_operand(it, model, cell, "result")
+
+            def ev(interp: Interp, args: List[Any], kwargs: Dict[str, Any]) -> Any:
+                if len(args) != 1 or args[0] is not ctxo or kwargs:
+                    raise AbsRaise(HostExc("AssertionError", "the wrapped expression is evaluated on another context than the one the filter was given"), None)
+                return res
+
+            inst.attrs["expression"] = expr_stub(it, model, ev, "inner", FE + inner_cls)
             return it.call_function(fn, [inst, ctxo], {}, None, self_av=inst)
 
-        key = f"test-truth:{cell}"
+        key = f"test-truth:{cell}" + ("" if inner_cls == "Expression" else f":{inner_cls}")
         try:
             runs = paths(model, body)
         except Unsupported as err:
